@@ -30,8 +30,8 @@ TRUSTED = [
     "extraction: ExtrOcamlBasic only; OCaml 4.13.1; ocaml/driver.ml; cross-checked in Coq by vm_compute on a sample",
     "modelled, not verified: json.load, Path.resolve/cwd, load_config, configure_logging, log_decision, analyze, fnmatch, tokenize, "
     "match_after's per-rule matcher are oracles (any behaviour, may raise); the theorems hold for all of them",
-    "not in the model: the legacy text log (logging.info/warning/error): stdlib logging swallows handler errors, so these calls never "
-    "raise into main(); json.dumps(ensure_ascii) and print of an ASCII line to a working stdout are total; setup_logging() raises "
+    "not in the model: the legacy text log (logging.info/warning/error): stdlib logging swallows handler errors (and, since "
+    "setup_logging sets logging.raiseExceptions = False, prints nothing about them), so these calls never raise into main(); json.dumps(ensure_ascii) and print of an ASCII line to a working stdout are total; setup_logging() raises "
     "nothing but OSError (it would need Path.home() to fail: no HOME and no passwd entry)",
     "C06_total assumes the functions main() calls raise subclasses of Exception only (KeyboardInterrupt / SystemExit escape `except Exception` by design)",
     "harness: subprocess runner, fault wrapper harness/hook_fault.py (monkeypatches, no repository change), host readers written from docs/hook-systems/*.md",
@@ -205,14 +205,13 @@ def allow_origin(sc, c: H.Case, value, reason):
     if not isinstance(value, dict):
         return None
     tn = value.get("tool_name")
-    routed = "tool_name" not in value or "--cursor" in c.flags or H.truthy_env(c.env.get("DIPPY_CURSOR")) or (
-        isinstance(tn, str) and (tn.startswith("mcp__") or tn in H.SHELL_TOOLS))
+    routed = "tool_name" not in value or (isinstance(tn, str) and (tn.startswith("mcp__") or tn in H.SHELL_TOOLS))
     pm = value.get("permission_mode")
     if isinstance(pm, str) and pm in H.BYPASS and routed and reason == pm:
         return "bypass"
     ti = value.get("tool_input") if isinstance(value.get("tool_input"), dict) else {}
     cwds = [x for x in (value.get("cwd"), ti.get("cwd")) if isinstance(x, str) and x] + [sc.proj(c.proj_cfg)]
-    if isinstance(tn, str) and tn.startswith("mcp__") and H.expected_mode(c, value) != "cursor":
+    if isinstance(tn, str) and tn.startswith("mcp__"):   # tool_name present: the tool path, whatever the mode
         for cwd in cwds:
             try:
                 cfg = H.real_load_config(sc, c, cwd)
